@@ -1,21 +1,16 @@
 SPECIFICATION Spec
 CONSTANTS
   RootNames = {1, 2, 4}
-  Stride = 7
+  Stride = 11
   AncestorFollow = FALSE
   MaxWalkDepth = 2
 CONSTRAINT Export
 INVARIANT ImplRefinesReq
 INVARIANT ImplPrefix
 INVARIANT RaisedIffNotDir
-INVARIANT LawBetween
-INVARIANT LawFinite
-INVARIANT LawTopLevel
-INVARIANT LawStrict
-INVARIANT LawFollow
-INVARIANT LawFlatIgnoresFollow
-INVARIANT LawDsBetween
+INVARIANT Laws
 INVARIANT WalkBounded
 INVARIANT NoStuck
 INVARIANT StepsExact
+PROPERTY Terminates
 CHECK_DEADLOCK FALSE
